@@ -19,22 +19,25 @@ def flat (nz : Nat) : Nat := if nz = 1 then 1 else 0
 
 /-- What one group name selects, as a test on the exposure count `e`
 (`none`: `"all"`; the name is assumed known, see `known`). -/
-def groupTest (arr : Arr) (nz : Nat) (g : String) (e : Nat) : Bool :=
+def groupTestF (arr : Arr) (f : Nat) (g : String) (e : Nat) : Bool :=
   match arr with
   | .square =>
-    if g == "corner" then e == 3 - flat nz
-    else if g == "edge" then e == 2 - flat nz
+    if g == "corner" then e == 3 - f
+    else if g == "edge" then e == 2 - f
     else if g == "side" then e == 1
     else if g == "core" then e == 0
     else if g == "center" then e == 0
     else false
   | .hexagonal =>
-    if g == "corner" then e == 5 - flat nz
-    else if g == "edge" then decide (e > 0) && decide (e < 5 - flat nz)
-    else if g == "side" then decide (e > 0) && decide (e < 5 - flat nz)
+    if g == "corner" then e == 5 - f
+    else if g == "edge" then decide (e > 0) && decide (e < 5 - f)
+    else if g == "side" then decide (e > 0) && decide (e < 5 - f)
     else if g == "core" then e == 0
     else if g == "center" then e == 0
     else false
+
+/-- `groupTestF` with `f = int(n_z == 1)` -/
+def groupTest (arr : Arr) (nz : Nat) (g : String) (e : Nat) : Bool := groupTestF arr (flat nz) g e
 
 def known (g : String) : Bool := VIAL_GROUPS.contains g
 
@@ -69,48 +72,54 @@ deriving DecidableEq, Repr
 /-- `group` column of the statistics table: successive `df.loc[df.group == v] = name`
 assignments; a cell that already holds a name never equals a number again, so the
 first matching assignment wins. -/
-def statsLabel (arr : Arr) (nz : Nat) (e : Nat) : Label :=
+def statsLabelF (arr : Arr) (f : Nat) (e : Nat) : Label :=
   match arr with
   | .square =>
-    if e == 3 - flat nz then .name "corner"
-    else if e == 2 - flat nz then .name "edge"
+    if e == 3 - f then .name "corner"
+    else if e == 2 - f then .name "edge"
     else if e == 1 then .name "side"
     else if e == 0 then .name "core"
     else .num e
   | .hexagonal =>
-    if e == 5 - flat nz then .name "corner"
-    else if e == 1 || e == 2 || e == 3 || e == 4 - flat nz then .name "edge"
+    if e == 5 - f then .name "corner"
+    else if e == 1 || e == 2 || e == 3 || e == 4 - f then .name "edge"
     -- the following assignment of "side" to the same values never matches again
     else if e == 0 then .name "core"
     else .num e
 
+def statsLabel (arr : Arr) (nz : Nat) (e : Nat) : Label := statsLabelF arr (flat nz) e
+
 /-- `group` column of the trajectory table (second block of `to_frame`), as repaired
 (fix F7): the same assignments as the statistics table. -/
-def trajLabel (arr : Arr) (nz : Nat) (e : Nat) : Label :=
+def trajLabelF (arr : Arr) (f : Nat) (e : Nat) : Label :=
   match arr with
   | .square =>
-    if e == 3 - flat nz then .name "corner"
-    else if e == 2 - flat nz then .name "edge"
+    if e == 3 - f then .name "corner"
+    else if e == 2 - f then .name "edge"
     else if e == 1 then .name "side"
     else if e == 0 then .name "core"
     else .num e
   | .hexagonal =>
-    if e == 5 - flat nz then .name "corner"
-    else if e == 1 || e == 2 || e == 3 || e == 4 - flat nz then .name "edge"
+    if e == 5 - f then .name "corner"
+    else if e == 1 || e == 2 || e == 3 || e == 4 - f then .name "edge"
     else if e == 0 then .name "core"
     else .num e
 
+def trajLabel (arr : Arr) (nz : Nat) (e : Nat) : Label := trajLabelF arr (flat nz) e
+
 /-- the trajectory-table labelling before fix F7 (`df.group == 1 - (n_z == 1)` for
 `"side"`), kept to state the counter-example -/
-def trajLabelUpstream (arr : Arr) (nz : Nat) (e : Nat) : Label :=
+def trajLabelUpstreamF (arr : Arr) (f : Nat) (e : Nat) : Label :=
   match arr with
   | .square =>
-    if e == 3 - flat nz then .name "corner"
-    else if e == 2 - flat nz then .name "edge"
-    else if e == 1 - flat nz then .name "side"
+    if e == 3 - f then .name "corner"
+    else if e == 2 - f then .name "edge"
+    else if e == 1 - f then .name "side"
     else if e == 0 then .name "core"
     else .num e
-  | .hexagonal => trajLabel .hexagonal nz e
+  | .hexagonal => trajLabelF .hexagonal f e
+
+def trajLabelUpstream (arr : Arr) (nz : Nat) (e : Nat) : Label := trajLabelUpstreamF arr (flat nz) e
 
 /-- Snowfall's `group=` argument: `"all"` (the bare string) keeps every row; anything
 else selects, as repaired (fix K5), the vials of `getVialGroup(group)`.
@@ -128,9 +137,11 @@ def fallFilterUpstream (arr : Arr) (nx ny nz : Nat) (gs : List String) : List Na
 
 /-- canonical class name: `"center"` is `"core"`; `"side"` is `"edge"` on a flat shelf
 and in hexagonal packing -/
-def canon (arr : Arr) (nz : Nat) (g : String) : String :=
+def canonF (arr : Arr) (f : Nat) (g : String) : String :=
   if g == "center" then "core"
-  else if g == "side" && (arr == .hexagonal || nz == 1) then "edge"
+  else if g == "side" && (arr == .hexagonal || f == 1) then "edge"
   else g
+
+def canon (arr : Arr) (nz : Nat) (g : String) : String := canonF arr (flat nz) g
 
 end Snow.Groups
